@@ -812,15 +812,18 @@ def run(ctx: Ctx) -> None:
         if status != "ok":
             raise RuntimeError(f"{PID} shard failed: {status}: {val}")
         ctx.merge(val)
-    for key in ("uncovered_functions", "metamorphic_only_functions"):
+    vec_cov = set(ctx.notes.get("vector_covered_functions", []))
+    ctx.notes["vector_covered_functions"] = sorted(vec_cov)
+    for key in ("uncovered_functions", "metamorphic_only_functions", "vector_covered_functions"):
         if key in ctx.notes:
+            ctx.notes[key] = [f for f in ctx.notes[key] if f not in vec_cov or key == "vector_covered_functions"]
             ctx.notes[key] = sorted(ctx.notes[key])
             ctx.notes[key + "_count"] = len(ctx.notes[key])
     ctx.assumptions += [
         "parameter <-> symbol correspondence: the guard symbol of validate_input, else the module attribute named like the parameter without its trailing underscore",
         "a call that raises on dimensionally valid arguments is not a violation (the property is conditional on 'returns a value'); counted per function, functions never returning are listed as uncovered",
         "functions without a one-to-one symbol correspondence to a published algebraic equation are covered by the unit/call-style invariance only; they are listed by name in the evidence",
-        "vector laws: every pair of law-functions / calculate-functions of one module that are solved for each other's vector argument (paired by name, other parameters identical) is checked as a round trip g(f(v, rest), rest) == v (vp/checks/c02_vector.py); other vector- and sequence-valued functions are not generated",
+        "vector laws: every pair of law-functions / calculate-functions of one module that are solved for each other's vector argument (paired by name, other parameters identical) is checked as a round trip g(f(v, rest), rest) == v; every vector calculate_<X> whose module offers <X>_law/<X>_definition over the same vector parameters is compared, in SI, with that law function evaluated on the SI components (scalar Quantity parameters are substituted for the module symbols of the same name) for generated components and unit spellings (vp/checks/c02_vector.py); other vector- and sequence-valued functions are not generated",
     ]
 
 
